@@ -135,8 +135,9 @@ pub fn run_case(c: &WCase) -> Outcome {
                     let net = w.net.borrow();
                     w.nodes.iter().filter(|n| n.alive && !n.is_spec).map(|n| net.max_input_frame_delivered.get(&(dead_addr, n.addr)).copied().unwrap_or(-1)).collect()
                 };
-                let _ = dead;
-                if w.killed_at.is_some() && ls.iter().any(|x| *x != ls[0]) {
+                let views: Vec<Vec<i32>> = w.nodes.iter().filter(|n| n.alive && !n.is_spec).filter_map(|n| n.cs_at_first_disconnect.as_ref().map(|c| dead.iter().map(|h| c[*h].1).collect())).collect();
+                let views_differ = views.iter().any(|x| *x != views[0]);
+                if w.killed_at.is_some() && (ls.iter().any(|x| *x != ls[0]) || views_differ) {
                     if let Verdict::Violated(vs) = &mut out.verdict {
                         for v in vs.iter_mut() {
                             v.detail = format!("{} [split cut-off: after the death the survivors hold different last frames of the dropped player: {:?}]", v.detail, ls);
